@@ -306,6 +306,37 @@ class Unit:
             log.append(dict(rule='R4', where=where, matches=n_before, why='private struct fields widened to pub (Verus spec accessors need it)'))
         for rw in list(kw.get('rewrites', [])) + self.rewrites:
             text = rw.apply(text, where, log)
+        for anchor, repl_expr, why in kw.get('elide', []):
+            # R8: the block that follows `anchor` (a match-arm pattern, `=> {` included or
+            # not) is replaced by `{ repl_expr }`; pattern and guard stay.  The elided arm is
+            # *unknown* to the proof: contracts can only be stated for inputs that provably
+            # do not reach it.
+            n_ = text.count(anchor)
+            if n_ != 1:
+                raise ExtractError('%s: elide anchor %r found %d times' % (where, anchor, n_))
+            code_e = rsitems.lex_mask(text)
+            j = text.index(anchor) + len(anchor)
+            while j < len(text) and text[j].isspace():
+                j += 1
+            if j < len(text) and text[j] == '{' and code_e[j]:
+                close = rsitems.match_bracket(text, code_e, j)
+            else:
+                # an expression arm: up to (not including) the `,` that ends it
+                close = j
+                while close < len(text):
+                    if code_e[close]:
+                        if text[close] in '([{':
+                            close = rsitems.match_bracket(text, code_e, close)
+                        elif text[close] == ',':
+                            break
+                        elif text[close] in ')]}':
+                            raise ExtractError('%s: elide: expression arm without terminating comma' % where)
+                    close += 1
+                close -= 1
+            body = text[j:close + 1]
+            text = text[:j] + '{ ' + repl_expr + ' }' + '\n' * body.count('\n') + text[close + 1:]
+            log.append(dict(rule='R8', where=where, anchor=anchor, matches=1,
+                            why='arm body outside the Verus dialect elided (%s): %d lines replaced by an unspecified value' % (why, body.count('\n') + 1)))
         if kw.get('desugar_for'):
             text = desugar_for_loops(text, kw['desugar_for'], where, log)
         # splice points are computed on the rewritten text; all splices are insertions
